@@ -115,6 +115,8 @@ class NightExec:
         prof = copy.deepcopy(self.profile)
         if op.get("override"):
             prof.update(copy.deepcopy(op["override"]))
+        if op.get("feed_as_lists"):
+            prof["feed_as_lists"] = True
         if op.get("fresh_client") or self.client is None:
             from elexmodel.client import ModelClient
 
